@@ -13,13 +13,14 @@ Open Scope R_scope.
 
 Definition C20_statement : Prop :=
   (* eigenvalue sign test: ValueError iff tol < 0; NonPSDError iff an eigenvalue < -tol;
-     otherwise "definite" iff no eigenvalue is within tol of zero *)
+     otherwise "definite" iff every eigenvalue is farther than tol from zero (so the zero matrix, whose default tol is 0, is
+     not definite) *)
   (forall (w : Rv) (tol : R),
      (check_sdpR w tol = SdpValueError <-> tol < 0) /\
      (0 <= tol -> (check_sdpR w tol = SdpNonPSD <-> exists a, In a w /\ a < - tol)) /\
      (0 <= tol -> (check_sdpR w tol = SdpNotDefinite <->
-                   (forall a, In a w -> - tol <= a) /\ exists a, In a w /\ Rabs a < tol)) /\
-     (0 <= tol -> (check_sdpR w tol = SdpDefinite <-> forall a, In a w -> - tol <= a /\ tol <= Rabs a))) /\
+                   (forall a, In a w -> - tol <= a) /\ exists a, In a w /\ Rabs a <= tol)) /\
+     (0 <= tol -> (check_sdpR w tol = SdpDefinite <-> forall a, In a w -> - tol <= a /\ tol < Rabs a))) /\
   (* diagonal shortcut: L = diag(sqrt(max(0, m_ii))), so L^T L = diag(max(0, m_ii)) *)
   (forall (m : Rv) i, (i < length m)%nat -> (nth i (@cfm_diag ROps m) 0)^2 = Rmax 0 (nth i m 0)) /\
   (* eigen fallback: for any (w, V), |L x|^2 = sum_k max(0,w_k) (v_k.x)^2, i.e. L^T L = V diag(max(0,w)) V^T;
